@@ -284,3 +284,41 @@ class Be(Family):
         # at least one handler invocation happened
         parts = split_top(obs)
         return len(parts) >= 2 and parts[1] != "(VL [])"
+
+
+class BGone(Family):
+    """requests served while the peer no longer reads: every reply fails to be sent (family "bgone", judged by the
+    specification only - the request-server model has no failing sends): descriptors must not stay open (C09)"""
+    name = "bgone"
+    shards = 16
+    spec = True
+    model = False
+
+    def generate(self, rng, tier):
+        out = []
+        fdn = [0]
+        def fd():
+            fdn[0] += 1
+            return fdn[0]
+        reps = 1 if tier == "quick" else 8
+        for _ in range(reps):
+            for outcome in (0, 1, 2, 3, 4):
+                for direction, phase in ((0, 0), (1, 0), (0, 1)):
+                    # SET_DEVICE_STATE_FD: the handler keeps the descriptor, returns another one, or fails
+                    m = (W.hdr(42, 1, 8) + W.le(direction, 4) + W.le(phase, 4), [fd()])
+                    out.append((encode_case(W.VF_PROTOCOL_FEATURES, W.PF_ALL, [outcome], [m]), "state-fd-reply-fails"))
+                # reply-bearing requests that return descriptors
+                for code in (31, 41):
+                    body = bytes(24) if code == 31 else bytes(range(16))
+                    m = (W.hdr(code, 1, len(body)) + body, [])
+                    out.append((encode_case(W.VF_PROTOCOL_FEATURES, W.PF_ALL, [outcome], [m]), "fd-reply-fails"))
+            # descriptor-carrying requests whose acknowledgement fails
+            pre = [(W.hdr(1, 1, 0), []), (W.hdr(2, 1, 8) + W.u64(W.VF_PROTOCOL_FEATURES), []), (W.hdr(15, 1, 0), [])]
+            for code in (12, 13, 14, 7, 21, 33):
+                body = W.u64(0) if code in (12, 13, 14) else b""
+                m = (W.hdr(code, 9, len(body)) + body, [fd()])
+                out.append((encode_case(W.VF_PROTOCOL_FEATURES, W.PF_ALL, [0, 0, 0, rng.below(2)], [m]), "fd-request-ack-fails"))
+        return out
+
+    def nontrivial(self, args, obs):
+        return True
